@@ -76,13 +76,15 @@ P["C05"] = {
     "common": {"validate": 3, "ignore_kinds": ["alloc", "unwind"], "runs": [
         {"pattern": "verifHarness_C05_", "label_filter": "C05:"},
         {"pattern": "verifHarness_C13_", "label_filter": "C05:"},
-        {"pattern": "verifHarness_C0304_(width|fit|indir)", "label_filter": "C05:"}]},
+        {"pattern": "verifHarness_C0304_(width|fit|indir)", "label_filter": "C05:"},
+        {"pattern": "verifHarness_C10_bank_step", "label_filter": "C05:"}]},
     "thorough": {"validate": 8, "runs": [
+        {"pattern": "verifHarness_C10_bank_step", "label_filter": "C05:"},
         {"pattern": "verifHarness_C05_", "label_filter": "C05:"},
         {"pattern": "verifHarness_C13_", "label_filter": "C05:"},
         {"pattern": "verifHarness_C0304_", "label_filter": "C05:"},
         {"pattern": "verifHarness_C0102_", "label_filter": "C05:"}]},
-    "bounds": "matrix: 18 schemas (null, boolean, int, long, float, double, bytes, string, fixed of size 0/1/4/16, record, enum, array<long>, map<long>, [null,long], [string,null]) x 42 Go kinds (bool, int8..int64, uint..uint64, uintptr, float32/64, complex64/128, string, []byte, [n]byte for n in 0,1,3,4,5,15,16,17, [4]int8, []int64/[]int16/[]int8, [2]int64, map[string]int64/int16, map[int]int64, structs, *int64/*int16, any, chan, func, unsafe.Pointer) x 4 positions (field, pointer, slice element, map value) = 3024 pairs; each pair that builds decodes a valid encoding of an arbitrary datum of the schema (every value symbolic, full-width ints, strings <= 2, arrays <= 2, maps <= 1) into a struct whose field is surrounded by 2-byte guards plus a sibling field not in the schema; asserted: guards and sibling unchanged, and (engine-implicit, strict heap typing on) every store inside the destination object, pointers only into pointer words and scalars never into them; building never panics",
+    "bounds": "matrix: 18 schemas (null, boolean, int, long, float, double, bytes, string, fixed of size 0/1/4/16, record, enum, array<long>, map<long>, [null,long], [string,null]) x 42 Go kinds (bool, int8..int64, uint..uint64, uintptr, float32/64, complex64/128, string, []byte, [n]byte for n in 0,1,3,4,5,15,16,17, [4]int8, []int64/[]int16/[]int8, [2]int64, map[string]int64/int16, map[int]int64, structs, *int64/*int16, any, chan, func, unsafe.Pointer) x 4 positions (field, pointer, slice element, map value) = 3024 pairs; each pair that builds decodes an encoding of an arbitrary datum of the schema (every value symbolic, full-width ints, a boolean is any wire byte 0..255, strings <= 2, arrays <= 2, maps <= 1) into a struct whose field is surrounded by 2-byte guards plus a sibling field not in the schema; asserted: guards and sibling unchanged, and (engine-implicit, strict heap typing on) every store inside the destination object, pointers only into pointer words and scalars never into them, only 0 or 1 into a bool; building never panics; plus one ResourceBank.Alloc / Close step from an arbitrary bank state satisfying the representation invariant (harness C10_bank_step: the slot handed out lies inside the arena's array)",
     "outside": "that a built decoder stores the *right* value (C03/C13); Go kinds not listed; more than one schema field",
     "assumptions": A_CORE,
 }
@@ -98,7 +100,7 @@ P["C06"] = {
 P["C07"] = {
     "common": {"validate": 6, "runs": [{"pattern": "verifHarness_C07_", "label_filter": "C07:"}]},
     "thorough": {"validate": 16},
-    "bounds": "files built by the real FileWriter (symbolic 16-byte sync marker, symbolic record values) for layouts {[1],[2,1],[1,1],[0,1]} (thorough more) x {null, deflate, snappy}; damage: the 16 bytes of either block's sync marker replaced by ANY 16 bytes that differ somewhere; the snappy trailer replaced by ANY different 4 bytes; the model decompressor rejecting the block after delivering ANY prefix of its output (natively: every single-bit corruption of the real compressed block that the real decompressor reports); the 4 magic bytes replaced by any different 4 bytes; unknown codec name; missing schema entry; missing codec entry (must read as uncompressed); callback failing at every record index of a 3-record file",
+    "bounds": "files built by the real FileWriter (symbolic 16-byte sync marker, symbolic record values) for layouts {[1],[2,1],[1,1],[0,1]} (thorough more) x {null, deflate, snappy}; damage: the 16 bytes of either block's sync marker replaced by ANY 16 bytes that differ somewhere; the snappy trailer replaced by ANY different 4 bytes; the model decompressor rejecting the block after delivering ANY prefix of its output (natively: every single-bit corruption of the real compressed block that the real decompressor reports); the 4 magic bytes replaced by any different 4 bytes; unknown codec name; missing schema entry; missing codec entry (must read as uncompressed); callback failing at every record index of a 3-record file with a private error, io.EOF, io.ErrUnexpectedEOF or an error wrapping io.EOF (returned unchanged, nothing delivered afterwards); a block whose record count is raised above what its payload holds (all three codecs) is an error",
     "outside": "which corruptions the real inflater / snappy decoder detect (uninterpreted; the property needs 'reported => propagated'); more than 3 blocks",
     "assumptions": A_CORE + A_FILE,
 }
